@@ -384,7 +384,7 @@ def is_numeric(node, numeric_names):
     return False
 
 
-_LAZY_FILTERS = {"reverse", "map", "select", "reject", "unique", "batch", "slice", "items", "selectattr", "rejectattr", "groupby"}
+_LAZY_FILTERS = {"reverse", "map", "select", "reject", "unique", "batch", "slice", "items", "selectattr", "rejectattr"}
 _CONSUMERS = {"list", "join", "sort", "length", "count", "first", "sum", "min", "max"}
 
 
@@ -1048,9 +1048,70 @@ def _templates(max_depth, max_stmts, nlifts):
                 return ["concat", [sm(), sm()]]
             return ["bin", "+", sm(), sm()]
 
+        DMETHODS = ["items", "keys", "values", "get"]
+
+        def method_dict(scope):
+            """a constant dict display, usually with a key named like a dict method (attribute-first lookup of d.items)"""
+            pairs = []
+            if chance(75):
+                pairs.append([c(pick(DMETHODS)), leaf(pick(["int", "str", "list"]), {"types": {}, "numeric": set()})])
+            for kname in DKEYS[: draw(I(0, 2))]:
+                pairs.append([c(kname), leaf(pick(["int", "str"]), {"types": {}, "numeric": set()})])
+            if chance(30):
+                pairs.append([c(pick(DMETHODS)), c(draw(I(0, 9)))])
+            return ["dict", pairs]
+
+        def dictattr_bool(scope):
+            m = pick(DMETHODS)
+            t = ["test", pick(["callable", "number", "string", "sequence", "mapping", "defined", "integer", "iterable"]),
+                 ["attr", method_dict(scope), m], [], chance(25)]
+            return t
+
+        def dictattr_list(scope):
+            m = pick(["items", "keys", "values"])
+            return ["filter", "list", ["call", ["attr", method_dict(scope), m], [], [], None, None], [], []]
+
+        def dictattr_any(scope):
+            k = pick(["cond", "get", "list", "bool"])
+            if k == "cond":
+                return ["cond", dictattr_bool(scope), leaf("str", scope), leaf("str", scope)]
+            if k == "get":
+                return ["call", ["attr", method_dict(scope), "get"], [c(pick(DMETHODS + ["a"]))], [], None, None]
+            if k == "list":
+                return dictattr_list(scope)
+            return dictattr_bool(scope)
+
+        GKEYS = ["k", "a"]
+
+        def group_rows(scope):
+            rows = []
+            for _ in range(draw(I(1, 4))):
+                rows.append(["dict", [[c("k"), c(pick([1, 2, "x", "<", "y"]))], [c("a"), leaf(pick(["int", "str"]), {"types": {}, "numeric": set()})]]])
+            return ["list", rows]
+
+        def grouped(scope):
+            args = [c(pick(GKEYS))]
+            kws = [["default", c(0)]] if chance(15) else []
+            return ["filter", "groupby", group_rows(scope), args, kws]
+
+        def group_expr(scope):
+            """groupby over a constant display, consumed through the documented .grouper / .list attributes"""
+            k = pick(["map", "first", "index", "maplist"])
+            if k == "map":
+                return ["filter", "join", ["filter", "map", grouped(scope), [], [["attribute", c("grouper")]]], [c(",")], []]
+            if k == "maplist":
+                return ["filter", "list", ["filter", "map", grouped(scope), [], [["attribute", c(pick(["list", "grouper"]))]]], [], []]
+            if k == "first":
+                return ["attr", ["filter", pick(["first", "last"]), grouped(scope), [], []], pick(["grouper", "list"])]
+            return ["attr", ["item", grouped(scope), c(draw(I(0, 1)))], pick(["grouper", "list"])]
+
         def out_expr(d, scope):
             if chance(12):
                 return escsens(scope)
+            if chance(5):
+                return dictattr_any(scope)
+            if chance(4):
+                return group_expr(scope)
             if chance(7):
                 return negpow(scope, chance(60))
             return g(pick(["str", "str", "str", "any", "int", "float", "bool", "list", "markup", "num"]), d, scope)
@@ -1070,6 +1131,10 @@ def _templates(max_depth, max_stmts, nlifts):
                 ty = pick(["int", "str", "float", "str", "any", "bool", "list"])
                 if ty in ("int", "float") and chance(15):
                     e = negpow(scope, ty == "float")
+                elif ty == "any" and chance(50):
+                    e = dictattr_any(scope) if chance(50) else group_expr(scope)
+                elif ty == "list" and chance(30):
+                    e = dictattr_list(scope) if chance(50) else grouped(scope)
                 else:
                     e = escsens(scope) if ty == "str" and chance(25) else g(ty, d, scope)
                 name = pick(VARS)
@@ -1079,7 +1144,7 @@ def _templates(max_depth, max_stmts, nlifts):
                 e2 = g("str", min(d, 2), scope) if chance(70) else None
                 return ["msafe", pick(["ifauto", "ifauto", "always"]), g("str", min(d, 2), scope), e2]
             if k == "if":
-                test = g(pick(["bool", "bool", "any"]), d, scope)
+                test = dictattr_bool(scope) if chance(12) else g(pick(["bool", "bool", "any"]), d, scope)
                 body = stmts(depth - 1, scope, True, in_macro)
                 other = stmts(depth - 1, scope, True, in_macro) if chance(50) else None
                 return ["if", test, body, other]
@@ -1088,9 +1153,20 @@ def _templates(max_depth, max_stmts, nlifts):
                 it = ["list" if chance(85) else "tuple", [g(ety, min(d, 2) - 1, scope) for _ in range(draw(I(0, 3)))]]
                 if chance(20):
                     it = ["filter", pick(["sort", "list"]), it, [], []]
+                special = None
+                if chance(18):
+                    it, ety, special = grouped(scope), "any", "group"
+                elif chance(8):
+                    it, ety = ["call", ["attr", method_dict(scope), pick(["items", "keys", "values"])], [], [], None, None], "any"
                 inner = new_scope(scope)
                 name = pick(LOOPVAR)
                 inner["types"][name] = ety
+                if special == "group":
+                    head = [["out", ["attr", ["name", name], "grouper"]], ["text", "="],
+                            ["out", pick([["attr", ["name", name], "list"], ["filter", "length", ["attr", ["name", name], "list"], [], []],
+                                          ["item", ["name", name], c(0)]])], ["text", ";"]]
+                    inner["numeric"].discard(name)
+                    return ["for", name, it, head + (stmts(depth - 1, inner, False, in_macro) if chance(40) else [])]
                 if it[0] in ("list", "tuple") and all(is_numeric(x, scope["numeric"]) for x in it[1]):
                     inner["numeric"].add(name)
                 else:
